@@ -225,6 +225,7 @@ class Builder:
             index = self.build(
                 src_index, context
             )  # This may be either an integer or defined parameter.
+            check_map_index(name, index)
             return NamedQubit(name, src, index)
         if len(args) == 5:
             # Mapping a slice of a register
@@ -239,6 +240,8 @@ class Builder:
             step = self.build(src_step, context, gate_context)
             if step is None:
                 step = 1
+            for bound in (start, stop, step):
+                check_map_index(name, bound)
             return Register(name, alias_from=src, alias_slice=slice(start, stop, step))
         raise JaqalError(f"Wrong number of arguments for map, found {args}")
 
@@ -532,6 +535,13 @@ class GateMemoizer:
             return tuple(cls._make_hashable(v) for v in obj)
         else:
             return obj
+
+
+def check_map_index(name, value):
+    """Raise a JaqalError unless the value can be an index or slice bound in
+    a map statement: an integer or something standing for one."""
+    if isinstance(value, bool) or not isinstance(value, (int, Constant, Parameter)):
+        raise JaqalError(f"Cannot map {name}: {value} is not an integer")
 
 
 def as_integer(value):
